@@ -1,7 +1,7 @@
 #!/bin/sh
 # tools/process_seed.sh <seed dir> : confirm a sub-agent's change in a scratch worktree (appends the JSON line to
-# /tmp/seed/confirm-r2.log), then run all 20 checks on it. Nothing is stored; use tools/store_seed.py afterwards.
+# /tmp/seed/confirm-r3.log), then run all 20 checks on it. Nothing is stored; use tools/store_seed.py afterwards.
 d=$(cd "$1" && pwd)
 [ -x "$d/run.sh" ] || chmod +x "$d/run.sh" 2>/dev/null
-/verif/tools/confirm_seed.sh "$d" | tee -a /tmp/seed/confirm-r2.log
+/verif/tools/confirm_seed.sh "$d" | tee -a /tmp/seed/confirm-r3.log
 /verif/tools/seedrun.sh "$d/patch.diff"
